@@ -7,6 +7,7 @@ import (
 	"fmt"
 	"os"
 	"os/exec"
+	"strings"
 	"sync"
 	"time"
 )
@@ -21,6 +22,10 @@ type WorkerOut struct {
 	Samples    []any            `json:"samples"`
 	Broken     string           `json:"broken,omitempty"`
 	Races      []string         `json:"races,omitempty"`
+	// Stderr is filled in by RunWorkers (never by the worker itself) when the worker process
+	// produced no result document: its standard error from the first Go crash marker
+	// ("fatal error:" / "panic:") on, or else its tail. See CrashClass.
+	Stderr string `json:"stderr,omitempty"`
 }
 
 type WorkerViol struct {
@@ -73,11 +78,116 @@ func RunWorkers(bin string, extraEnv []string, jobs []string, par int, perJob ti
 				if len(msg) > 600 {
 					msg = msg[len(msg)-600:]
 				}
-				w = WorkerOut{Job: j, Broken: fmt.Sprintf("no result (err=%v): %s", err, msg)}
+				w = WorkerOut{Job: j, Broken: fmt.Sprintf("no result (err=%v): %s", err, msg), Stderr: crashExcerpt(se.String())}
 			}
 			outs[i] = w
 		}(i, j)
 	}
 	wg.Wait()
 	return outs
+}
+
+const stderrKeep = 8000
+
+// crashExcerpt keeps the part of a dead worker's stderr that identifies the crash: from the
+// first line starting with "fatal error:" or "panic:" (the goroutine dump that follows can be
+// long, so the tail alone would lose the cause), else the tail.
+func crashExcerpt(se string) string {
+	at := -1
+	for _, m := range []string{"fatal error:", "panic:"} {
+		for from := 0; from < len(se); {
+			i := strings.Index(se[from:], m)
+			if i < 0 {
+				break
+			}
+			i += from
+			if i == 0 || se[i-1] == '\n' {
+				if at < 0 || i < at {
+					at = i
+				}
+				break
+			}
+			from = i + len(m)
+		}
+	}
+	if at >= 0 {
+		se = se[at:]
+		if len(se) > stderrKeep {
+			se = se[:stderrKeep]
+		}
+		return se
+	}
+	if len(se) > stderrKeep {
+		se = se[len(se)-stderrKeep:]
+	}
+	return se
+}
+
+// CrashClass classifies the stderr excerpt of a worker that died without a result (WorkerOut.Stderr).
+// It returns a short class when the death is a crash of the code under test under the schedule being
+// explored, which is a verdict (signature "worker crash: <class>", witness = the job):
+//
+//   - "fatal error: concurrent map ..." (the runtime's unsynchronised map access detector),
+//   - "fatal error: all goroutines are asleep - deadlock!",
+//   - "fatal error: sync: ..." (unlock of an unlocked mutex etc.) with a frame under repoDir,
+//   - an unrecovered "panic:" whose goroutine dump has a frame under repoDir
+//     (frames of the injected scheduler, repoDir/vsched/, do not count).
+//
+// Everything else (killed on timeout, out of memory, a panic only in harness frames) returns ""
+// and stays "incomplete": it says nothing about the property.
+func CrashClass(stderr, repoDir string) string {
+	first := ""
+	for _, l := range strings.Split(stderr, "\n") {
+		if strings.HasPrefix(l, "fatal error:") || strings.HasPrefix(l, "panic:") {
+			first = strings.TrimSpace(l)
+			break
+		}
+	}
+	if first == "" {
+		return ""
+	}
+	inRepo := false
+	for _, l := range strings.Split(stderr, "\n") {
+		f := strings.TrimSpace(l)
+		if strings.HasPrefix(f, repoDir+"/") && !strings.HasPrefix(f, repoDir+"/vsched/") {
+			inRepo = true
+			break
+		}
+	}
+	switch {
+	case strings.HasPrefix(first, "fatal error: concurrent map"):
+		return first
+	case strings.HasPrefix(first, "fatal error: all goroutines are asleep"):
+		return first
+	case strings.HasPrefix(first, "fatal error: sync:") && inRepo:
+		return first
+	case strings.HasPrefix(first, "panic:") && inRepo:
+		// class of the message: digits and hex addresses vary between runs
+		return "panic: " + msgClass(strings.TrimSpace(strings.TrimPrefix(first, "panic:")))
+	}
+	return ""
+}
+
+func msgClass(s string) string {
+	if i := strings.Index(s, " [recovered]"); i >= 0 {
+		s = s[:i]
+	}
+	var b strings.Builder
+	num := false
+	for _, r := range s {
+		if r >= '0' && r <= '9' {
+			if !num {
+				b.WriteByte('N')
+				num = true
+			}
+			continue
+		}
+		num = false
+		b.WriteRune(r)
+	}
+	out := b.String()
+	if len(out) > 100 {
+		out = out[:100]
+	}
+	return out
 }
